@@ -1,7 +1,4 @@
 // ================= transaction.rs =================
-// TRUSTED: std
-pub assume_specification<'a, T: Copy> [Option::<&'a T>::copied] (o: Option<&'a T>) -> (r: Option<T>)
-    ensures r == (match o { Some(x) => Some(*x), None => None::<T> });
 
 /// a block of 2048 pairwise distinct ids inside [start, start + 2048)
 pub open spec fn distinct_in_block(a: Seq<u64>, start: int) -> bool {
